@@ -53,7 +53,8 @@ def gen_scripts(r, n):
 import copy
 
 RMS = 20                  # retry delays 20..40 ms
-TMO = 30                  # request timeout on loopback, ms
+TMO = 30                  # request timeout on loopback when the peer is silent (a Timeout is the expected outcome), ms
+TMO_SERVED = 5000         # ... and when a reply is expected (far away, so that a loaded machine cannot turn Ok into Timeout)
 
 
 class Scenario:
@@ -122,15 +123,16 @@ class Scenario:
         elif name == 'submit':
             i = self.nid
             self.nid += 1
-            ev = [('S', i, 'r', TMO * MS, 'f')]
+            tmo = TMO_SERVED if (s.ph == 'Idle' and self.conn_mode == 'serve') else TMO
+            ev = [('S', i, 'r', tmo * MS, 'f')]
             if s.ph == 'Idle':
                 if self.conn_mode == 'serve':
                     ev.append(('F', s.txid, 'g'))
                 else:
-                    ev.append(('T', TMO * MS))
+                    ev.append(('T', tmo * MS))
             elif s.ph == 'Waiting':
                 ev += self.retry_events()          # releasing the held task also lets the retry timer run
-            self._do([f'S:{i}:{TMO}'], ev)
+            self._do([f'S:{i}:{tmo}'], ev)
         elif name == 'shutdown':
             self._do(['X'], [('X',)], done=True)
         elif name == 'drop':
@@ -142,7 +144,8 @@ class Scenario:
                 return
             hold_at = s.nl + (1 if at == 'lC' else 2)
             first = [('E', 'f')] + (self.connect_outcome() if at == 'lN' else [])
-            second = {'D': [('D', 'f')], 'X': [('X',)], 'H': [('H',)], 'S': [('S', self.nid, 'r', TMO * MS, 'f')]}[cmd]
+            itmo = TMO_SERVED if (at == 'lN' and self.env == 'serve') else TMO
+            second = {'D': [('D', 'f')], 'X': [('X',)], 'H': [('H',)], 'S': [('S', self.nid, 'r', itmo * MS, 'f')]}[cmd]
             if cmd == 'S':
                 if at == 'lC':
                     second += self.connect_outcome()
@@ -152,7 +155,7 @@ class Scenario:
                 elif self.env == 'serve':
                     second.append(('F', s.txid, 'g'))
                 else:
-                    second.append(('T', TMO * MS))
+                    second.append(('T', itmo * MS))
             pred = copy.deepcopy(s)
             for e in first:
                 pred.apply(e)
@@ -162,7 +165,7 @@ class Scenario:
             self.h += [f'hold:{hold_at}', 'E', f'wait:{hold_at}']
             if pred2.ph == 'Waiting' and pred2.nl > hold_at:
                 pass                                   # cannot arm a second hold while one is pending: avoid these combinations
-            act = {'D': 'D', 'X': 'X', 'H': 'H', 'S': f'S:{self.nid}:{TMO}'}[cmd]
+            act = {'D': 'D', 'X': 'X', 'H': 'H', 'S': f'S:{self.nid}:{itmo}'}[cmd]
             if cmd == 'S':
                 self.nid += 1
             self.h += [act, 'go']
@@ -272,13 +275,13 @@ def judge_loopback(ctx, items):
                 spec.append('C13.task-ended-without-a-Shutdown-notification')
             if m is not None:
                 mp = cl.parse(cl.canon(m))
-                mls = [t for t in mp['task'] if t[0] == 'l']
+                mls = [t.split('@')[0] for t in mp['task'] if t[0] == 'l']
                 mcomp = ' '.join(f'c{c[0]}:{c[1]}' for c in sorted(mp['comp']))
                 if mls != ls:
                     # a notification the model (proved legal, with Disabled after every disable and a wait state after
                     # every failed connect / lost connection) makes and the implementation does not, or vice versa
-                    missing = [x[:2] for x in mls if x not in ls]
-                    spec.append('C13.listener-path-differs:' + ('missing-' + missing[0] if missing else 'other'))
+                    k = next((j for j, (a, b) in enumerate(zip(mls, ls)) if a != b), min(len(mls), len(ls)))
+                    spec.append('C13.listener-path-differs:' + (f'{mls[k][:2]}-expected' if k < len(mls) else f'{ls[k][:2]}-unexpected'))
                 if mcomp != comp:
                     other.append('C13.completions-differ-from-the-model')
                 if mp['done'] != fin.startswith('done'):
@@ -296,8 +299,83 @@ def judge_loopback(ctx, items):
     return len(items), traces
 
 
+# ------------------------------------------------------------------------------- serial (pty) scenarios
+# (script, what the property statement requires: PortState path | completion classes | termination), written by hand
+def _S(i, t=5000):
+    return ('S', i, 'r', t * MS, 'f')
+
+
+# (harness script, expected outcome, the same scenario as events of the serial model: ('O', ok) sets the result of the
+#  next opens, F*/T steps as in the TCP scripts)
+SERIAL = [
+    ('hold:2 E wait:2 link go wait:3 S:1:5000 waitc:1 D wait:4 S:2:5000 waitc:2 E wait:5 serve:off S:3:30 waitc:3 X done',
+     'sD sW20000000 sO sD sO sS|c1:Ok c2:NoConnection c3:Timeout|done after:Shutdown|',
+     [('E', 'f'), ('O', True), ('T', 20 * MS), _S(1), ('F', 0, 'g'), ('D', 'f'), _S(2), ('E', 'f'), _S(3, 30), ('T', 30 * MS), ('X',)]),
+    ('sleep:30 X done', 'sD sS||done after:Shutdown|', [('X',)]),
+    ('link E wait:2 S:1:5000 waitc:1 H done', 'sD sO sS|c1:Ok|done|', [('O', True), ('E', 'f'), _S(1), ('F', 0, 'g'), ('H',)]),
+    ('link E wait:2 S:1:5000 waitc:1 hold:3 unlink hup wait:3 S:2:50 go waitc:2 hold:4 wait:4 link go wait:5 S:3:5000 waitc:3 X done',
+     'sD sO sW20000000 sW20000000 sO sS|c1:Ok c2:NoConnection c3:Ok|done after:Shutdown|',
+     [('O', True), ('E', 'f'), _S(1), ('F', 0, 'g'), ('O', False), ('Z',), _S(2, 50), ('T', 20 * MS), ('O', True), ('T', 20 * MS), _S(3), ('F', 1, 'g'), ('X',)]),
+    ('S:1:50 waitc:1 H done', 'sD sS|c1:NoConnection|done|', [_S(1, 50), ('H',)]),
+    ('hold:2 E wait:2 hold:3 go wait:3 hold:4 go wait:4 X go done', 'sD sW20000000 sW40000000 sW40000000 sS||done after:Shutdown|',
+     [('E', 'f'), ('T', 20 * MS), ('T', 40 * MS), ('X',)]),
+    ('hold:2 E wait:2 D go wait:3 S:1:50 waitc:1 X done', 'sD sW20000000 sD sS|c1:NoConnection|done after:Shutdown|',
+     [('E', 'f'), ('D', 'f'), _S(1, 50), ('X',)]),
+    ('link serve:off E wait:2 S:1:40 sleep:5 X waitc:1 done', 'sD sO sS|c1:Timeout|done after:Shutdown|',
+     [('O', True), ('E', 'f'), _S(1, 40), ('X',), ('T', 40 * MS)]),
+    ('link E wait:2 D wait:3 E wait:4 D wait:5 H done', 'sD sO sD sO sD sS||done|',
+     [('O', True), ('E', 'f'), ('D', 'f'), ('E', 'f'), ('D', 'f'), ('H',)]),
+]
+
+PCO = {'sD': 'SDisabled', 'sO': 'SOpen', 'sS': 'SShutdown'}
+
+
+def sevent_coq(st):
+    if st[0] == 'O':
+        return 'SSetOpen ' + ('true' if st[1] else 'false')
+    return 'SEnv (' + cl.step_coq(st) + ')'
+
+
+def serial(ctx):
+    lines = [f'rmin={RMS} rmax={2 * RMS} | {x[0]}' for x in SERIAL]
+    if cl.MODEL_OK:
+        mod = ctx.coq_eval(cl.REQUIRES + ['Model.SerialTask', 'Model.SerialEager'], 'eval_scase',
+                           [f'{{| sk_rmin := {RMS * MS}; sk_rmax := {2 * RMS * MS}; sk_script := [{"; ".join(sevent_coq(e) for e in x[2])}] |}}' for x in SERIAL],
+                           case_type='scase')
+    else:
+        mod = [None] * len(SERIAL)
+    impl = ctx.harness('serialcycle', lines, shards=3, timeout=300)
+    traces = [i.split('|')[0].split() for i in impl]
+    res = ctx.coq_eval(['Base.Show', 'Spec.Lifecycle'], 'fun l : list pstate => show_bool (plegal l)',
+                       ['[' + '; '.join(PCO.get(x, 'SWait ' + x[2:]) for x in t) + ']' for t in traces], case_type='list pstate')
+    bad = 0
+    for (sc, want, mscript), line, i, legal, m in zip(SERIAL, lines, impl, res, mod):
+        why = []
+        if legal != '1':
+            why.append('C13.serial.illegal-port-state-path')
+        if i != want:
+            why.append('C13.serial.outcome-differs-from-the-expected-one')
+        if m is not None:
+            mt, mc, md = m.split('|')
+            it, ic, idone = i.split('|')[:3]
+            if (mt, ' '.join(sorted(mc.split())), md) != (it, ic, idone.split()[0] if idone else ''):
+                why.append('C13.serial.outcome-differs-from-the-serial-model')
+        if why:
+            bad += 1
+            if bad == 1:
+                ctx.violation(why[0], f'serial scenario [{line}]: {", ".join(why)}; impl={i} expected={want} model={m}',
+                              {'serial': [[sc, want, [list(e) for e in mscript]]], 'impl': i, 'model': m})
+    ctx.oblige('serial:real-rtu-client-task-on-a-pty', bad == 0, f'{bad} of {len(SERIAL)} scenarios')
+    return len(SERIAL)
+
+
 def run(ctx):
     if not cl.prepare(ctx, ['Spec.Lifecycle']):
+        return
+    if ctx.replay and 'serial' in ctx.replay:
+        global SERIAL
+        SERIAL = [(x[0], x[1], [tuple(e) for e in x[2]]) for x in ctx.replay['serial']]
+        serial(ctx)
         return
     if ctx.replay and 'loopback' in ctx.replay:
         judge_loopback(ctx, [(o, l, cl.case_from_json(j)) for o, l, j in ctx.replay['loopback']])
@@ -305,7 +383,7 @@ def run(ctx):
     if ctx.replay and 'cases' in ctx.replay:
         cases = [cl.case_from_json(j) for j in ctx.replay['cases']]
     else:
-        cases = gen_scripts(ctx.rng, 2000 if ctx.quick() else 20000)
+        cases = gen_scripts(ctx.rng, 3000 if ctx.quick() else 20000)
     impl, model = cl.run_both(ctx, cases)
     n_mis, n_spec = cl.judge(ctx, 'C13', cases, impl, model)
     ctx.oblige('correspondence:client-task-scripts', n_mis == 0 and n_spec == 0, f'{n_mis} model / {n_spec} spec mismatches in {len(cases)} scripts')
@@ -315,7 +393,7 @@ def run(ctx):
     for c, i in zip(cases, impl):
         p = cl.parse(i)
         if p:
-            traces.append((c, [t for t in p['task'] if t[0] == 'l']))
+            traces.append((c, [t.split('@')[0] for t in p['task'] if t[0] == 'l']))
     distinct = sorted(set(tuple(t) for _, t in traces))
     res = ctx.coq_eval(['Base.Show', 'Spec.Lifecycle'], 'fun l : list cstate => show_bool (legal l && shutdown_last l)',
                        ['[' + '; '.join(lstate_coq(x) for x in t) + ']' for t in distinct], case_type='list cstate', per_shard=400)
@@ -328,20 +406,23 @@ def run(ctx):
     ctx.oblige('spec:Lifecycle.legal-on-implementation-listener-traces', not bad, f'{len(bad)} illegal of {len(traces)} traces ({len(distinct)} distinct)')
 
     n_loop, ltraces = (0, [])
+    n_serial = 0
     if not ctx.replay:
         n_loop, ltraces = loopback(ctx, 60 if ctx.quick() else 150)
+        n_serial = serial(ctx)
     classes = {}
     for c, i in zip(cases, impl):
         for k in cl.classify(c, i):
             classes[k] = classes.get(k, 0) + 1
     classes['distinct-listener-traces'] = len(distinct)
     classes['loopback-scenarios'] = n_loop
+    classes['serial-pty-scenarios'] = n_serial
     classes['loopback-distinct-listener-traces'] = len(set(tuple(t) for t in ltraces))
     for t in ltraces:
         for x in set(y[:2] for y in t):
             classes['loopback-listener:' + x] = classes.get('loopback-listener:' + x, 0) + 1
     ctx.coverage.update({
-        'evaluations': len(cases) + len(distinct) + n_loop,
+        'evaluations': len(cases) + len(distinct) + n_loop + n_serial,
         'distinct_nontrivial': len([t for t in distinct if len(t) >= 3]),
         'rule': 'event scripts biased to enable/disable/connect results/lost connections/shutdown/handle drops (directed list first); non-trivial = distinct listener traces with at least three notifications',
         'samples': [[cl.to_line(c), i] for c, i in list(zip(cases, impl))[:3]],
